@@ -2,13 +2,16 @@ package p_blockb
 
 import (
 	"context"
+	"errors"
 	"fmt"
 	"sync"
+	"sync/atomic"
 	"testing"
 
 	"github.com/spikeekips/mitum/base"
 	"github.com/spikeekips/mitum/isaac"
 	isaacblock "github.com/spikeekips/mitum/isaac/block"
+	leveldbstorage "github.com/spikeekips/mitum/storage/leveldb"
 	"verif/internal/chain"
 	"verif/internal/ev"
 	"verif/internal/gen"
@@ -108,12 +111,63 @@ func c15Build() (*c15Src, error) {
 	return s, nil
 }
 
+// Imports in which one block cannot be stored/merged (the statement is "success only if EVERY block ... stored and merged").
+const (
+	c15FaultNone = ""
+	// every write to the destination leveldb storage fails (fault controller H3) while the merge step of block FaultAt
+	// (the func returned by BlockImporter.Save: Center.MergeBlockWriteDatabase) runs
+	c15FaultMerge = "storage-merge"
+	// the same while BlockImporter.Save of block FaultAt runs (after the other Saves of its batch have returned, a legal schedule)
+	c15FaultSave = "storage-save"
+	// the destination already holds 0..Prefix-1 with Prefix > From (import command with --from-height below the last
+	// block: it only asks for block From-1 to exist): the Center refuses block From, its height is not last+1
+	c15FaultReimport = "reimport"
+	// the destination holds 0..Prefix-1 with 1 <= Prefix < From: the Center refuses block From
+	c15FaultGap = "gap"
+)
+
 type c15Case struct {
 	From, Count, Limit int
 	Lvps               bool // pass a setLastVoteproofsFunc (like the syncer) or nil (like launch.ImportBlocks)
+	Prefix             int  // the destination holds 0..Prefix-1 before ImportBlocks (== From unless reimport/gap)
+	Fault              string
+	FaultAt            int // height of the block that cannot be stored/merged (reimport/gap: From)
 }
 
 func (c c15Case) To() int { return c.From + c.Count - 1 }
+
+// Top is the last height the destination must have after a successful import.
+func (c c15Case) Top() int {
+	if c.Prefix-1 > c.To() {
+		return c.Prefix - 1
+	}
+
+	return c.To()
+}
+
+// FaultBatchSize is the number of importers in the batch that holds block FaultAt.
+func (c c15Case) FaultBatchSize() int {
+	first := (c.FaultAt - c.From) / c.Limit * c.Limit // index of the first block of that batch
+	if n := c.Count - first; n < c.Limit {
+		return n
+	}
+
+	return c.Limit
+}
+
+func (c c15Case) String() string {
+	s := fmt.Sprintf("import %d..%d (count %d) batch limit %d lvps=%v", c.From, c.To(), c.Count, c.Limit, c.Lvps)
+
+	switch c.Fault {
+	case c15FaultNone:
+	case c15FaultMerge, c15FaultSave:
+		s += fmt.Sprintf(" fault=%s at block %d (batch of %d)", c.Fault, c.FaultAt, c.FaultBatchSize())
+	default:
+		s += fmt.Sprintf(" fault=%s destination holds 0..%d (block %d in a batch of %d)", c.Fault, c.Prefix-1, c.FaultAt, c.FaultBatchSize())
+	}
+
+	return s
+}
 
 type c15Outcome struct {
 	Err        error
@@ -123,9 +177,133 @@ type c15Outcome struct {
 	LvpsCalled   bool
 	LvpsFound    bool
 	LvpsHeight   base.Height
+	// observed at the merge func handed to every BlockImporter (wired like launch): result of the last run per height
+	MergeOK  map[int]bool
+	MergeErr map[int]string
+	Fired    int64 // writes refused by the fault controller
+	// after an error return: blocks of the range visible in the Center whose block files are gone (informational)
+	VisibleWithoutFiles int
 }
 
-// c15Run prepares a destination that already holds 0..From-1 (imported block by block, not through ImportBlocks) and
+// ---- fault injection + observation of the per-block merge step
+
+var c15ErrInjected = errors.New("c15: injected storage fault")
+
+type c15Probe struct {
+	sync.Mutex
+	cond       *sync.Cond
+	batchSaved int // storage-save: Saves of the other blocks of the faulted block's batch that have returned
+	armed      atomic.Bool
+	fired      atomic.Int64
+	mergeOK    map[int]bool
+	mergeErr   map[int]string
+}
+
+var c15Probes sync.Map // *leveldbstorage.Storage -> *c15Probe
+
+func c15FaultController(st *leveldbstorage.Storage, _ string, _ int) error {
+	i, found := c15Probes.Load(st)
+	if !found {
+		return nil
+	}
+
+	p := i.(*c15Probe) //nolint:forcetypeassert //...
+	if !p.armed.Load() {
+		return nil
+	}
+
+	p.fired.Add(1)
+
+	return c15ErrInjected
+}
+
+// c15SaveFaultImporter arms the fault while the Save of the case's block runs. The Saves of one batch run concurrently;
+// the faulted one is held back until the others of its batch have returned (a legal schedule), so that the refused
+// writes are exactly those of that block.
+type c15SaveFaultImporter struct {
+	isaac.BlockImporter
+	p       *c15Probe
+	fault   bool
+	waitFor int // fault: Saves of the same batch to wait for
+}
+
+func (im *c15SaveFaultImporter) Save(ctx context.Context) (func(context.Context) error, error) {
+	p := im.p
+
+	if !im.fault {
+		deferred, err := im.BlockImporter.Save(ctx)
+
+		p.Lock()
+		p.batchSaved++
+		p.cond.Broadcast()
+		p.Unlock()
+
+		return deferred, err
+	}
+
+	p.Lock()
+	for p.batchSaved < im.waitFor {
+		p.cond.Wait()
+	}
+	p.Unlock()
+
+	p.armed.Store(true)
+	defer p.armed.Store(false)
+
+	return im.BlockImporter.Save(ctx)
+}
+
+// c15NewImporter is bbDest.newImporter (wired like launch.ImportBlocks) plus the observation of the merge step and the
+// fault window of the case.
+func c15NewImporter(d *bbDest, p *c15Probe, c c15Case) func(base.BlockMap) (isaac.BlockImporter, error) {
+	encs, _ := gen.Encoders()
+
+	return func(m base.BlockMap) (isaac.BlockImporter, error) {
+		h := int(m.Manifest().Height())
+
+		bwdb, err := d.DB.NewBlockWriteDatabase(m.Manifest().Height())
+		if err != nil {
+			return nil, err
+		}
+
+		im, err := isaacblock.NewBlockImporter(d.Root, encs, m, bwdb,
+			func(context.Context) error {
+				fault := c.Fault == c15FaultMerge && h == c.FaultAt
+				if fault {
+					p.armed.Store(true)
+				}
+
+				err := d.DB.MergeBlockWriteDatabase(bwdb)
+
+				if fault {
+					p.armed.Store(false)
+				}
+
+				p.Lock()
+				p.mergeOK[h] = err == nil
+				if err != nil {
+					p.mergeErr[h] = bbErrStr(err)
+				}
+				p.Unlock()
+
+				return err
+			},
+			gen.NetworkID,
+		)
+		if err != nil || c.Fault != c15FaultSave {
+			return im, err
+		}
+
+		first := c.From + (c.FaultAt-c.From)/c.Limit*c.Limit // first block of the batch of the faulted block
+		if h < first || h >= first+c.FaultBatchSize() {
+			return im, nil
+		}
+
+		return &c15SaveFaultImporter{BlockImporter: im, p: p, fault: h == c.FaultAt, waitFor: c.FaultBatchSize() - 1}, nil
+	}
+}
+
+// c15Run prepares a destination that already holds 0..Prefix-1 (imported block by block, not through ImportBlocks) and
 // runs the real ImportBlocks wired like launch.ImportBlocks.
 func c15Run(s *c15Src, c c15Case) (*bbDest, c15Outcome, error) {
 	d, err := bbNewDest()
@@ -133,7 +311,7 @@ func c15Run(s *c15Src, c c15Case) (*bbDest, c15Outcome, error) {
 		return nil, c15Outcome{}, err
 	}
 
-	for h := 0; h < c.From; h++ {
+	for h := 0; h < c.Prefix; h++ {
 		if stored, step, err := bbImportOne(d, s.W.Readers, s.Blocks[h].Map); !stored {
 			d.Close()
 
@@ -141,7 +319,7 @@ func c15Run(s *c15Src, c c15Case) (*bbDest, c15Outcome, error) {
 		}
 	}
 
-	if c.From > 0 {
+	if c.Prefix > 0 {
 		if err := d.DB.MergeAllPermanent(); err != nil {
 			d.Close()
 
@@ -150,6 +328,12 @@ func c15Run(s *c15Src, c c15Case) (*bbDest, c15Outcome, error) {
 	}
 
 	var out c15Outcome
+
+	p := &c15Probe{mergeOK: map[int]bool{}, mergeErr: map[int]string{}}
+	p.cond = sync.NewCond(&p.Mutex)
+
+	c15Probes.Store(d.St, p)
+	defer c15Probes.Delete(d.St)
 
 	var lvpsf func([2]base.Voteproof, bool) error
 	if c.Lvps {
@@ -174,7 +358,7 @@ func c15Run(s *c15Src, c c15Case) (*bbDest, c15Outcome, error) {
 		d.Readers, // launch passes the destination's readers
 		bbMapFunc(s.W.Readers),
 		bbItemFunc(s.W.Readers),
-		d.newImporter,
+		c15NewImporter(d, p, c),
 		lvpsf,
 		func(context.Context) error {
 			out.MergeCalls++
@@ -188,6 +372,21 @@ func c15Run(s *c15Src, c c15Case) (*bbDest, c15Outcome, error) {
 		},
 	)
 
+	p.armed.Store(false)
+	out.MergeOK, out.MergeErr, out.Fired = p.mergeOK, p.mergeErr, p.fired.Load()
+
+	if out.Err != nil && c.Prefix == c.From {
+		for h := c.From; h <= c.To(); h++ {
+			if _, found, _ := d.DB.BlockMap(base.Height(h)); !found {
+				continue
+			}
+
+			if _, found, err := isaac.BlockItemReadersDecode[base.BlockMap](d.Readers.Item, base.Height(h), base.BlockItemMap, nil); err != nil || !found {
+				out.VisibleWithoutFiles++
+			}
+		}
+	}
+
 	return d, out, nil
 }
 
@@ -198,7 +397,20 @@ func c15Check(t ev.TB, r *ev.Rec, s *c15Src, c c15Case, d *bbDest, out c15Outcom
 	}
 
 	to := base.Height(c.To())
-	desc := fmt.Sprintf("import %d..%d (count %d) batch limit %d lvps=%v", c.From, c.To(), c.Count, c.Limit, c.Lvps)
+	top := base.Height(c.Top()) // == to unless the destination already held later blocks (reimport)
+	desc := c.String()
+
+	// success => every block merged: a merge step (the func handed to the BlockImporter, Center.MergeBlockWriteDatabase as
+	// in launch) whose last run for a height of the range failed means that block is not merged. A merge step that never
+	// ran is left to the comparison of the stored data below.
+	for h := c.From; h <= c.To(); h++ {
+		if ok, ran := out.MergeOK[h]; ran && !ok {
+			r.Violation(t, "merge-failure-reported-as-success",
+				"%s: ImportBlocks returned nil but the merge step of block %d (in a batch of %d importers) failed: %s",
+				desc, h, c15Case{From: c.From, Count: c.Count, Limit: c.Limit, FaultAt: h}.FaultBatchSize(), out.MergeErr[h])
+		}
+	}
+
 	// root-cause signature: blocks of a full last batch that are missing while everything before them is there
 	sig := "missing-block"
 
@@ -222,9 +434,9 @@ func c15Check(t ev.TB, r *ev.Rec, s *c15Src, c c15Case, d *bbDest, out c15Outcom
 	case err != nil:
 		t.Fatalf("LastBlockMap: %v", err)
 	case !found:
-		r.Violation(t, sig, "%s: ImportBlocks returned nil but the database has no last block map (want height %d)", desc, to)
-	case m.Manifest().Height() != to:
-		r.Violation(t, sig, "%s: ImportBlocks returned nil but the last stored height is %d, want %d", desc, m.Manifest().Height(), to)
+		r.Violation(t, sig, "%s: ImportBlocks returned nil but the database has no last block map (want height %d)", desc, top)
+	case m.Manifest().Height() != top:
+		r.Violation(t, sig, "%s: ImportBlocks returned nil but the last stored height is %d, want %d", desc, m.Manifest().Height(), top)
 	}
 
 	for h := c.From; h <= c.To(); h++ {
@@ -268,8 +480,14 @@ func c15Check(t ev.TB, r *ev.Rec, s *c15Src, c c15Case, d *bbDest, out c15Outcom
 		}
 	}
 
-	// every key has the version of the chain cut at To
-	for k, want := range s.KeysAt[c.To()] {
+	// every key has the version of the chain cut at the last height (not judged when blocks below From were never given
+	// to the destination: their keys cannot be there)
+	keys := s.KeysAt[c.Top()]
+	if c.Prefix < c.From {
+		keys = nil
+	}
+
+	for k, want := range keys {
 		switch got, found, err := d.DB.State(k); {
 		case err != nil:
 			t.Fatalf("State: %v", err)
@@ -281,9 +499,9 @@ func c15Check(t ev.TB, r *ev.Rec, s *c15Src, c c15Case, d *bbDest, out c15Outcom
 	}
 
 	// merged: the merge callback (launch: Center.MergeAllPermanent) ran after the last block became visible in the Center
-	if out.MergeCalls < 1 || out.LastMergeSaw != to {
+	if out.MergeCalls < 1 || out.LastMergeSaw != top {
 		r.Violation(t, "not-merged", "%s: success but the last of %d merge callbacks ran when the Center's last height was %d, want %d",
-			desc, out.MergeCalls, out.LastMergeSaw, to)
+			desc, out.MergeCalls, out.LastMergeSaw, top)
 	}
 
 	if c.Lvps && (!out.LvpsCalled || !out.LvpsFound || out.LvpsHeight != to) {
@@ -292,7 +510,7 @@ func c15Check(t ev.TB, r *ev.Rec, s *c15Src, c c15Case, d *bbDest, out c15Outcom
 
 	// the suffrage proof the importer built for the last suffrage block must be there
 	wantSuf := base.Height(0)
-	if c.To() >= 4 {
+	if c.Top() >= 4 {
 		wantSuf = 1
 	}
 
@@ -313,10 +531,20 @@ func TestC15(t *testing.T) {
 		"deterministic enumeration of (count 1..40, batch limit 1..40) pairs — thorough: all 1600 pairs, quick: every pair with count a multiple of limit and count<=12 or count==24, " +
 		"(16,16) (33,33) (40,40), plus a seed-rotated sample of the rest; import start From in 0..3 (prefix imported block by block) and " +
 		"setLastVoteproofsFunc nil (launch.ImportBlocks) or set (syncer) derived from (count, limit, seed); real ImportBlocks + BlockImporter + Center over a fresh mem leveldb. " +
-		"non-trivial: count%limit==0 or count>limit; distinct by (from,count,limit,lvps)")
-	r.Floor(40)
+		"non-trivial: count%limit==0 or count>limit; distinct by (from,count,limit,lvps). " +
+		"Plus imports in which one block cannot be stored/merged — (count, limit, position of that block) enumerated for count 1..6 x limit 1..7 (thorough 1..12 x 1..13) and a few larger shapes with count%limit==1, " +
+		"so that the block sits in a batch of exactly one importer (limit 1, one-block range, last batch with remainder 1) or first/middle/last in a larger batch, in the first/middle/last batch: " +
+		"storage-merge (every write to the destination leveldb fails, fault controller H3, while that block's merge step runs), and per (count, limit) one of storage-save (the same during that block's BlockImporter.Save), " +
+		"reimport (destination already holds blocks >= From, as the import command allows: the Center refuses block From) and gap (destination ends below From-1). " +
+		"non-trivial there: the failure was observed (a refused write or a failed merge step); distinct by (from,count,limit,lvps,fault,block,prefix)")
+	r.Floor(120)
 	r.Assume("success = ImportBlocks returns nil; stored = block map/operations/states readable from the destination Center and block files from its local fs; merged = visible through the Center and the merge callback (Center.MergeAllPermanent as in launch) ran after block B became visible",
-		"an error return is never judged (with a setLastVoteproofsFunc that fails on not-found, as the syncer's does, a lost last batch surfaces as an error)")
+		"an error return is never judged (with a setLastVoteproofsFunc that fails on not-found, as the syncer's does, a lost last batch surfaces as an error)",
+		"the merge step of a block is the func handed to its BlockImporter (Center.MergeBlockWriteDatabase of its block write database, as launch wires it); ImportBlocks has no other way to merge a block, "+
+			"so success while the last run of that func for a height of the range returned an error is a violation; what an import that returns an error leaves behind is not judged (only counted)")
+
+	leveldbstorage.VerifSetFaultController(c15FaultController)
+	defer leveldbstorage.VerifSetFaultController(nil)
 
 	s, err := c15GetSource()
 	if err != nil {
@@ -325,7 +553,8 @@ func TestC15(t *testing.T) {
 
 	seed := int(r.Seed)
 	idx := 0
-	nErr := 0
+	nErr, nPlainErr, nVisibleWithoutFiles := 0, 0, 0
+	nFaultCases, nFaultObserved := map[string]int{}, map[string]int{}
 	firstErr := ""
 
 	var cases []c15Case
@@ -353,10 +582,80 @@ func TestC15(t *testing.T) {
 				c.From = 0
 			}
 
+			c.Prefix = c.From
+
 			// the nil variant is the one that can report success wrongly; keep it the majority
 			c.Lvps = (count+2*limit+seed)%4 == 0
 
 			cases = append(cases, c)
+		}
+	}
+
+	nPlain := len(cases)
+
+	// ---- imports in which one block cannot be stored/merged
+	addFault := func(count, limit, pos int, fault string) {
+		idx++
+		if !r.Mine(idx) {
+			return
+		}
+
+		x := count*5 + limit*3 + pos + seed
+		c := c15Case{Count: count, Limit: limit, Fault: fault, Lvps: x%4 == 0}
+
+		switch fault {
+		case c15FaultReimport:
+			c.From = x % (c15MaxFrom + 1)
+			c.Prefix = c.From + 1 + (x/4)%3
+			c.FaultAt = c.From
+		case c15FaultGap:
+			c.From = 2 + x%(c15MaxFrom-1)
+			c.Prefix = 1 + (x/2)%(c.From-1)
+			c.FaultAt = c.From
+		default:
+			c.From = x % (c15MaxFrom + 1)
+			c.Prefix = c.From
+			c.FaultAt = c.From + pos
+		}
+
+		cases = append(cases, c)
+	}
+
+	maxCount, maxLimit := r.N(6, 12), r.N(7, 13)
+
+	for count := 1; count <= maxCount; count++ {
+		for limit := 1; limit <= maxLimit; limit++ {
+			for pos := 0; pos < count; pos++ {
+				addFault(count, limit, pos, c15FaultMerge)
+			}
+
+			others := []string{c15FaultSave, c15FaultReimport, c15FaultGap}
+
+			if r.Thorough() {
+				for pos := 0; pos < count; pos++ {
+					addFault(count, limit, pos, c15FaultSave)
+				}
+
+				addFault(count, limit, 0, c15FaultReimport)
+				addFault(count, limit, 0, c15FaultGap)
+			} else {
+				addFault(count, limit, (count+limit+seed)%count, others[(count*2+limit+seed)%3])
+			}
+		}
+	}
+
+	// larger ranges whose last batch holds one importer (count%limit==1), the unmerged block last, first or in the middle
+	for _, cl := range [][2]int{{13, 4}, {13, 12}, {25, 8}, {34, 3}, {40, 39}, {37, 6}} {
+		if !r.Thorough() && !(cl == [2]int{13, 4} || cl == [2]int{13, 12} || cl == [2]int{34, 3}) {
+			continue
+		}
+
+		addFault(cl[0], cl[1], cl[0]-1, c15FaultMerge)
+
+		if r.Thorough() {
+			addFault(cl[0], cl[1], 0, c15FaultMerge)
+			addFault(cl[0], cl[1], cl[0]/2, c15FaultMerge)
+			addFault(cl[0], cl[1], cl[0]-1, c15FaultSave)
 		}
 	}
 
@@ -429,6 +728,46 @@ func TestC15(t *testing.T) {
 		nontrivial := multiple || count > limit
 		classes := []string{fmt.Sprintf("from:%d", c.From), fmt.Sprintf("lvps:%v", c.Lvps)}
 
+		if c.Fault != c15FaultNone {
+			observed := out.Fired > 0
+			for _, ok := range out.MergeOK {
+				observed = observed || !ok
+			}
+
+			nontrivial = observed
+			nFaultCases[c.Fault]++
+			if observed {
+				nFaultObserved[c.Fault]++
+			}
+			nVisibleWithoutFiles += out.VisibleWithoutFiles
+
+			classes = append(classes, "fault:"+c.Fault, fmt.Sprintf("fault-observed:%v", observed))
+
+			switch n := c.FaultBatchSize(); {
+			case n == 1:
+				classes = append(classes, "fault-batch:one-importer")
+			case n == 2:
+				classes = append(classes, "fault-batch:two-importers")
+			default:
+				classes = append(classes, "fault-batch:more-importers")
+			}
+
+			switch first := (c.FaultAt - c.From) / c.Limit * c.Limit; {
+			case first+c.Limit >= c.Count:
+				classes = append(classes, "fault-in:last-batch")
+			default:
+				classes = append(classes, "fault-in:earlier-batch")
+			}
+
+			if _, ran := out.MergeOK[c.FaultAt]; ran {
+				classes = append(classes, "fault-reached:merge-step")
+			} else {
+				classes = append(classes, "fault-reached:before-merge-step")
+			}
+		} else {
+			classes = append(classes, "fault:none")
+		}
+
 		switch {
 		case multiple && count > limit:
 			classes = append(classes, "shape:multiple-batches-last-full")
@@ -444,27 +783,44 @@ func TestC15(t *testing.T) {
 			nErr++
 			classes = append(classes, "result:error")
 
-			if firstErr == "" {
-				firstErr = fmt.Sprintf("%+v: %s", c, bbErrStr(out.Err))
+			if c.Fault == c15FaultNone {
+				nPlainErr++
+
+				if firstErr == "" {
+					firstErr = fmt.Sprintf("%+v: %s", c, bbErrStr(out.Err))
+				}
 			}
 		} else {
 			classes = append(classes, "result:success")
 		}
 
-		r.Case(fmt.Sprintf("%d|%d|%d|%v", c.From, c.Count, c.Limit, c.Lvps), nontrivial, classes...)
+		r.Case(fmt.Sprintf("%d|%d|%d|%v|%s|%d|%d", c.From, c.Count, c.Limit, c.Lvps, c.Fault, c.FaultAt, c.Prefix), nontrivial, classes...)
 
-		if nontrivial && multiple && r.WantSample() {
+		if nontrivial && (multiple || (c.Fault != c15FaultNone && c.FaultBatchSize() == 1)) && r.WantSample() {
 			r.Sample(map[string]any{"from": c.From, "to": c.To(), "count": c.Count, "batch_limit": c.Limit, "set_last_voteproofs": c.Lvps,
-				"result_error": bbErrStr(out.Err), "merge_callback_calls": out.MergeCalls})
+				"fault": c.Fault, "fault_block": c.FaultAt, "fault_batch_importers": c.FaultBatchSize(), "destination_held_before": c.Prefix,
+				"result_error": bbErrStr(out.Err), "merge_callback_calls": out.MergeCalls, "writes_refused": out.Fired})
 		}
 	}
 
 	// the source chain is valid, so every import must go through; an import that fails says nothing about the statement
 	// and a run made of failures would be vacuous (on the unfixed tree the setLastVoteproofs variant fails for multiples)
 	r.Extra("imports_returning_error", nErr)
+	r.Extra("fault_free_imports_returning_error", nPlainErr)
+	r.Extra("fault_imports_with_observed_failure", nFaultObserved)
+	r.Extra("error_returns_blocks_visible_in_center_without_files", nVisibleWithoutFiles)
 
-	if nErr*2 > len(cases) && !r.Failed() {
-		t.Fatalf("more than half of the imports of a valid chain failed (%d of %d), cannot decide; first: %s", nErr, len(cases), firstErr)
+	if nPlainErr*2 > nPlain && !r.Failed() {
+		t.Fatalf("more than half of the fault-free imports of a valid chain failed (%d of %d), cannot decide; first: %s", nPlainErr, nPlain, firstErr)
+	}
+
+	// the fault classes must reach the code: a run in which no injected storage fault fired / no merge was refused is vacuous
+	if !r.Failed() {
+		for _, f := range []string{c15FaultMerge, c15FaultSave, c15FaultReimport, c15FaultGap} {
+			if nFaultCases[f] > 0 && nFaultObserved[f] == 0 {
+				t.Fatalf("none of the %d %q imports hit its failure (fault controller not consulted / block not refused)", nFaultCases[f], f)
+			}
+		}
 	}
 
 	r.Exhaustive(r.Thorough())
